@@ -193,6 +193,9 @@ def execute(scn):
     eps = EPS[spec["dtype"]]
     model = Model(spec)
     stats, events, viols, sets = {}, [], [], {}
+    from ..world import require_valid
+
+    require_valid(model, call)
     if call["api"] == "backward":
         exp = expect_backward(model, call, eps)
         updates = exp["updates"]
@@ -216,7 +219,7 @@ def execute(scn):
         if hostile_batched and out["exc"] == "RuntimeError":
             stats["reach.hostile_probe_failed_under_vmap_allowed"] = 1
         else:
-            viols.append({"clause": "valid_call_raised", "step": "main", "details": {**out, "m": m, "k": k, "retain": call["retain"], "sequential": sequential}, "key": {"exc": out["exc"]}})
+            viols.append({"clause": "valid_call_raised", "step": "main", "details": {**out, "m": m, "k": k, "retain": call["retain"], "sequential": sequential}, "key": {"exc": out["exc"], "msg": (out.get("msg") or "")[:40]}})
     else:
         for b in bad:
             viols.append({"clause": "value_differs_for_chunk_size", "step": "main", "details": {"m": m, "k": k, **b}, "key": {}})
@@ -263,7 +266,7 @@ def execute(scn):
             events.append([f"k={k2}", out2["ok"], out2["exc"]])
             if not out2["ok"]:
                 if not (hb2 and out2["exc"] == "RuntimeError"):
-                    viols.append({"clause": "valid_call_raised", "step": f"k={k2}", "details": {**out2, "m": m, "k": k2}, "key": {"exc": out2["exc"]}})
+                    viols.append({"clause": "valid_call_raised", "step": f"k={k2}", "details": {**out2, "m": m, "k": k2}, "key": {"exc": out2["exc"], "msg": (out2.get("msg") or "")[:40]}})
                 continue
             for b in bad2:
                 viols.append({"clause": "value_differs_for_chunk_size", "step": f"k={k2}", "details": {"m": m, "k": k2, **b}, "key": {}})
